@@ -551,7 +551,8 @@ HEADER = """/-
 """
 
 
-def main(repo: str, outdir: str) -> int:
+def main(repo: str, outdir: str, dry: bool = False) -> int:
+    """dry=True: report whether the files on disk differ from what the source says, write nothing"""
     os.makedirs(outdir, exist_ok=True)
     ad = ast.parse(open(os.path.join(repo, "src/optyx/core/autodiff.py")).read())
     rules = HEADER + "import Optyx.Syntax\n\nnamespace Optyx.Generated\nopen Optyx\n\n"
@@ -572,8 +573,11 @@ def main(repo: str, outdir: str) -> int:
         path = os.path.join(outdir, fname)
         old = open(path).read() if os.path.exists(path) else None
         if old != text:
-            with open(path, "w") as f:
-                f.write(text)
+            if not dry:
+                tmp = path + f".tmp{os.getpid()}"
+                with open(tmp, "w") as f:
+                    f.write(text)
+                os.replace(tmp, path)
             changed = True
     print(json.dumps({"changed": changed,
                       "sha": hashlib.sha256((rules + tables + closures).encode()).hexdigest()[:16]}))
@@ -582,7 +586,7 @@ def main(repo: str, outdir: str) -> int:
 
 if __name__ == "__main__":
     try:
-        sys.exit(main(sys.argv[1], sys.argv[2]))
+        sys.exit(main(sys.argv[1], sys.argv[2], dry="--dry" in sys.argv[3:]))
     except TranslateError as e:
         print(json.dumps({"translate_error": str(e)}))
         sys.exit(3)
